@@ -194,6 +194,8 @@ def completeness(rep, rule, g, pf, extra=()):
         msg = t.get('msg', '')
         okk = False
         d = gd.D
+        if d[0] == 'const' and d[1] == 'false' and t.get('exp') is False:
+            continue      # an overflow check on two constants that the analysis decided (`2 * HASH_LEN`): it cannot fire
         if d[0] == 'field' and d[2][0] == 'bin':
             op, a, b = d[2][1], d[2][2], d[2][3]
             if op == 'SubWithOverflow' and is_sget(a, 'instance', 'Epoch') and is_epoch_of(b, pf.H):
